@@ -53,7 +53,7 @@ CLAIMED = {
             "For syntax errors the extent is the whole broken entry, not the exact point where parsing stopped; column numbers and underlined sub-spans are not judged."),
     "C13": ("exploration",
             "deterministic simulation: same world and argv run in 2-6 simulated processes differing in hash seed, glob enumeration order, read/write chunking, EINTR and clock; outputs compared byte for byte",
-            "The property is schedule independence, and the simulator owns every schedule okane depends on: per-process hash keys (content-hashed interned strings + seeded SipHash for every HashMap/HashSet in okane), glob enumeration order, stream chunking with short reads/writes and EINTR, and the calendar date. Each seeded world (accepted and failing ledgers, multi-commodity accounts, price diamonds, shallow and deep include trees with wildcards in directory components; a fifth of the runs are `okane import` worlds: CSV and camt.053 statements under layered configurations, multi-field rule elements, hostile text, header labels that no longer match) is run with 1-6 commands in 2-6 processes; stdout bytes, success/failure and the rendered error chain must be identical. One run in 64 also executes every command with the shipped, unhooked binary on the world materialised in a real directory and compares exit status and stdout (stub fidelity); a failing stdout (EPIPE after k bytes) is recorded as a probe.",
+            "The property is schedule independence, and the simulator owns every schedule okane depends on: per-process hash keys (content-hashed interned strings + seeded SipHash for every HashMap/HashSet in okane), glob enumeration order, stream chunking with short reads/writes and EINTR, and the calendar date. Each seeded world (accepted and failing ledgers, multi-commodity accounts, price diamonds, shallow and deep include trees with wildcards in directory components; a fifth of the runs are `okane import` worlds: CSV and camt.053 statements under layered configurations, multi-field rule elements, hostile text, header labels that no longer match) is run with 1-6 commands in 2-6 processes; stdout bytes, success/failure and the rendered error chain must be identical. One run in 64 also executes every command with the shipped, unhooked binary on the world materialised in a real directory and compares two OS processes of that binary with each other and then with the simulated process (exit status and stdout; stub fidelity, and real hash seeds); the import worlds also break header labels or several field templates at once so that the import fails and the error must read the same in every process; a failing stdout (EPIPE after k bytes) is recorded as a probe.",
             "Hash maps inside dependencies keep RandomState (their order never reaches output). Simulated orders are a subset of what production can produce."),
     "C15": ("exploration",
             "deterministic simulation: seeded CSV, camt.053 and Viseca statements with hostile text, imported by 2-3 simulated processes differing in hash seed and in the chunking of the YAML / statement streams (short writes and EINTR on stdout for the shipped command); printed output parsed back with okane's parser and compared with the built trees",
@@ -65,16 +65,16 @@ CLAIMED = {
             "Weak-to-medium simulation contribution: the pipeline through a durable file and the delivery faults. Liability accounts with a balance column are not put through the pipeline."),
     "C17": ("exploration",
             "deterministic simulation: layered configuration documents and rewrite rules (CSV and camt.053, multi-field elements) resolved by 2-4 simulated processes with different hash seeds and chunked YAML streams; select() compared with the statement's merge, every record's payee / code / counter-account / pending mark with the model's fold",
-            "1-6 configuration documents in shuffled order whose paths are (or are not) substrings of the statement's path, the shortest carrying the required settings, later ones overriding scalars and appending rules. ConfigSet::select on the multi-document stream must equal select on the single document the statement's merge produces. Rewrite rules (case-insensitive regexes, named groups payee / code, OR-lists, AND-elements of 1-3 fields, payee overrides, pending flags, several account-assigning rules per record) are folded over CSV records and, in a third of the runs, over camt.053 entries where every regex field captures; payee, code, counter-account (Income:/Expenses:Unknown when none) and pending mark must equal the model's fold in every simulated process.",
-            "Documents with equally long paths, and two fields of one element capturing different text for the same group, are DONT_CARE (the latter still has to be the same in every process: C13)."),
+            "1-6 configuration documents in shuffled order whose paths are (or are not) substrings of the statement's path, the shortest carrying the required settings, later ones overriding scalars and appending rules. ConfigSet::select on the multi-document stream must equal select on a single document holding a merge the statement admits (shortest path first, equally long paths in either order). Rewrite rules (case-insensitive regexes, named groups payee / code, OR-lists, AND-elements of 1-3 fields, payee overrides, pending flags, several account-assigning rules per record) are folded over CSV records and, in a third of the runs, over camt.053 entries where every regex field captures; payee, code, counter-account (Income:/Expenses:Unknown when none) and pending mark must equal the model's fold in every simulated process.",
+            "Documents with equally long paths may merge in either order (select must equal one of the admissible merges, each such document taking part); two fields of one element capturing different text for the same group are DONT_CARE (the latter still has to be the same in every process: C13)."),
     "C18": ("exploration",
             "deterministic simulation with fault injection: a model bank account emits consecutive consistent camt.053 statements; imported transactions compared with the model in 2-4 simulated processes (hash seed, chunked XML/YAML); funding + printed output of exactly-once / duplicated / lost / reordered deliveries book-kept by okane and by the reference model",
             "1-3 consecutive consistent single-currency camt.053 statements (opening/closing balance of either sign, 0-8 entries: credits and debits, no details / one detail / batches summing to the entry, charges included in the amount, value date absent / equal / different from the booking date as Dt or DtTm, domain or proprietary bank transaction codes, inline or nested parties, either row_order). Every imported transaction is compared with the model (opening-balance transaction first, one per entry or detail, sign, value date with booking date as effective date, reference as code, fee posting, opening assertion on the first and closing assertion on the last). Then funding + the printed output of the deliveries is book-kept by okane and by the reference model: same verdict, same final balance, the closing balance after an exactly-once delivery.",
             "Weak-to-medium simulation contribution (pipeline and delivery faults). The date of the opening-balance transaction, charges not included in the amount, multi-currency details and several statements per file are outside the generator."),
     "C20": ("fault_enumeration",
             "deterministic simulation with fault injection: Golden::new / Golden::assert against a simulated file and environment; the matrix UPDATE_GOLDEN x file state x fault (read error, write refused, torn write) x environment flip x third-party edit is enumerated cell by cell, contents are seeded, cycles share one durable file; outcomes compared with a reference model of the statement",
-            "okane_golden::Golden runs against a simulated golden file and environment through the seam in golden/src/verif.rs. The run index selects one of the 192 cells of UPDATE_GOLDEN in {unset, '', '1', '0'} x file {absent, present} x fault {none, read error, write refused at open, write torn after k bytes} x environment flipped between new and assert x third party {nothing, edit, remove} for the first new/assert cycle, so every cell is visited equally often; contents and `got` are seeded; further drawn cycles reuse the file earlier ones wrote. Oracle = the statement: assert returns iff got equals the content with CRLF normalised; zero write calls and an unchanged file whenever UPDATE_GOLDEN is unset or empty at the call; new on an absent file fails unless updating; after a successful update the file holds exactly got; a failed update must panic.",
-            "The matrix is exhaustive (evidence: schedules.distinct_matrix_cells = 192); contents within a cell are sampled. What assert compares against after a third-party edit or an update/no-update flip is DONT_CARE."),
+            "okane_golden::Golden runs against a simulated golden file and environment through the seam in golden/src/verif.rs. The run index selects one of the 192 cells of UPDATE_GOLDEN in {unset, '', '1', '0'} x file {absent, present} x fault {none, read error, write refused at open, write torn after k bytes} x environment flipped between new and assert x third party {nothing, edit, remove} for the first new/assert cycle, so every cell is visited equally often; contents and `got` are seeded; further drawn cycles reuse the file earlier ones wrote. Oracle = the statement: assert returns iff got equals the content with CRLF normalised; zero write calls and an unchanged file whenever UPDATE_GOLDEN is unset or empty at the call; new on an absent file fails unless updating; after a successful update the file holds exactly got; a failed update must panic. Every scenario is also executed against a real scratch directory (under /dev/shm or the temp dir, created and removed by the run) with the worker's real environment variable and no world installed: the whole directory tree (names, bytes, mtimes) is snapshotted around new and assert, with the faults a real directory can produce (the path is a directory or a symlink loop when read, a directory when written, the parent directory is missing); this leg sees whatever std API Golden uses, and decides alone when the simulated leg saw no traffic through its seam.",
+            "The matrix is exhaustive (evidence: schedules.distinct_matrix_cells = 192); contents within a cell are sampled. What assert compares against after a third-party edit or an update/no-update flip is DONT_CARE, and so is what new does with an unreadable file, or whether it writes, while UPDATE_GOLDEN is set (the statement then only asks that the file hold got afterwards). Torn writes and EIO exist in the simulated leg only."),
 }
 
 NOT_BUILT = {}
